@@ -45,3 +45,21 @@ Example C02_boundary_255 :
   sw (upd_sub s t) = W16 /\ sn (upd_sub s t) = 256 /\ sls (upd_sub s t) = [256; 128; 1] /\
   scent (upd_sub s t) = [true; true; false].
 Proof. vm_compute. repeat split. Qed.
+
+(* ---- composition with C12: the stored centroid IS the per-bit majority of the members ---- *)
+From BB Require Import Proofs.Compose.
+(* no reported cluster is empty *)
+Theorem C02_clusters_nonempty : forall fexp cfg0 ops,
+  2 <= c_bf cfg0 -> ops_wf fexp (init cfg0) ops -> ops_perms_ok fexp (init cfg0) ops ->
+  Forall (fun s => 1 <= sn s) (sorted_leaves (run fexp cfg0 ops)).
+Proof. exact run_reported_nonempty. Qed.
+(* bit j of a reported centroid is set iff at least half of the cluster's members have it set
+   (ties set), for every cluster of fewer than 2^53 members *)
+Theorem C02_centroid_is_majority : forall fexp D cfg0 ops,
+  2 <= c_bf cfg0 -> ops_wf fexp (init cfg0) ops -> ops_perms_ok fexp (init cfg0) ops ->
+  ops_data_strong fexp D (init cfg0) ops ->
+  let st := run fexp cfg0 ops in
+  Forall (fun s => sn s < 2 ^ 53 ->
+            scent s = map (fun k => sn s <=? 2 * k) (colsum (nfeat st) (map D (sids s))))
+         (sorted_leaves st).
+Proof. exact reported_centroid_is_majority. Qed.
